@@ -63,7 +63,7 @@ def judge(op, impl, model, spec):
     toks, kv, pos = F.fields(impl)
     good = True
     if w[0] == "fread":
-        maxlen = int(w[1])
+        maxlen = F.ml(w[1])
         if not F.peak_ok(kv, maxlen):
             return "violation"
         if kind in ("frag", "resync", "rand"):
@@ -95,7 +95,7 @@ def judge(op, impl, model, spec):
                 exp = F.ann(op, "exp").split("/")
                 good = toks[:len(exp)] == exp
     elif w[0] == "fwrite":
-        maxlen = int(w[1])
+        maxlen = F.ml(w[1])
         if kind == "wr":
             vs = F.parse_vals(w[2])
             exp, sink = [], b""
@@ -290,6 +290,18 @@ def big_ops(rng, tier):
     return ops
 
 
+def default_limit_ops(rng, tier):
+    """readers / writers that were never given a limit: the documented default is 512 KiB of payload, exactly"""
+    ops = []
+    for v in F.default_limit_vals():
+        p = F.payload(v)
+        st = F.frames([p, b"\x05"])
+        exp = f"some:{F.val_tok(v)}/some:u5/none"
+        ops.append(f"fread d {3 if len(p) <= 524288 else 1} {gen.hexb(st)} - #k=maxlen #len={len(p)} #exp={exp}")
+        ops.append(f"fwrite d {F.vals_tok([v, ('u', 5)])} - #k=wr")
+    return ops
+
+
 def mk(name, ops, rule):
     if name != "replay":
         ops = F.ctor_expand(ops)      # every 4th scenario once more through with_buffer(..) with some buffer
@@ -307,6 +319,7 @@ def streams(rng, tier):
         mk("reader-maxlen", maxlen_ops(rng, tier), "max_len around the frame size, hostile prefixes; oracle: err:len with buffer untouched, peak allocation request bounded"),
         mk("writer", writer_ops(rng, tier), "short writes + Interrupted, encode failures, max_len; oracle: exact frame bytes and return values"),
         mk("random", random_ops(rng, tier), "seeded random longer scenarios; benign ones judged by the oracle, the rest against the model"),
+        mk("default-limit", default_limit_ops(rng, tier), "payloads of 524285..524289 bytes through a reader and a writer whose limit was never set: 524288 is the last one accepted"),
         mk("big-frames", big_ops(rng, tier), "frames of 4095..70000 bytes read in 700..5000-byte pieces with Interrupted calls inside the payload, and written through short / 1..5-byte / Interrupted writes; oracle: every value once, in order / exact frame bytes"),
         mk("long-streams", long_ops(rng, tier), "31..300 frames through one reader and one writer under chunking and Interrupted; oracle: every value once, in order / exact frame bytes"),
     ]
